@@ -26,6 +26,10 @@ CHECKS["C16"] = ("exploration", "4 C16",
     "runtime monitoring: the statement's covering/nearest rule evaluated over the harness' registry vs find_closest / fileset[t] on generated trees",
     "Thousands of lookups (inside a file, in gaps, on boundaries, ties, empty neighbourhoods, excluded exact names, filters) on generated populations compared with the rule of the statement.")
 
+CHECKS["C12"] = ("fault_enumeration", "4 C12",
+    "runtime monitoring with fault enumeration: audit-hook fs trace + sys.monitoring line failpoints + body exceptions + corrupt archives; directory snapshots, byte comparison, stdlib archive readers",
+    "For every golden scenario (format x content x name x tmpdir x pre-existing target) every recorded file-system event and every executed line of compress/compress_as/decompress is used once as a fault site; after each run the harness-owned temp locations must be empty and the target untouched where the statement says so. Right level: the fault space of one scenario is finite and is enumerated; scenarios are sampled.")
+
 NOT_YET = {}
 
 
